@@ -19,6 +19,10 @@ SURFACE = """This round: at least TWO of your three changes must sit OFF the bea
 """
 
 
+ROUND7 = """This round (your time budget is 20 minutes in total, so work fast and keep each change small): each of your two changes must be of a kind from this list, and the two must be of different kinds: (a) VALUE-dependent - only particular values trigger it: wires of dimension 1 or repeated dimensions, complex or integer dtypes, phases that are negative, >= 1, exactly 0 or 1/2, integer rather than float, symbolic expressions with two symbols or a symbol used twice, names that are equal between different kinds of object, very wide or empty types; (b) DELEGATION - the slip sits in a public path that delegates to the anchored code through another feature (formal sums, bubbles, daggered or transposed boxes, negative or stepped slices, variadic `tensor(*others)` / `then(*others)`, `@`/`>>`/`<<` with mixed operand classes, subclasses in quantum/zx/tensor/rigid that override one method); (c) HISTORY - visible only after a particular multi-step sequence of calls on the same objects (mutable state, caches, aliasing between result and argument, consumed iterators). A change that any straightforward random test of the main entry point would hit at once counts as too easy.
+"""
+
+
 def main():
     pid = sys.argv[1].upper()
     low = pid.lower()
@@ -48,9 +52,12 @@ def main():
         extra += HARD + "\n"
     if "--surface" in sys.argv:
         extra += SURFACE + "\n"
-    out = out.replace("produce TWO different", "produce THREE different")\
-        .replace("k in {1, 2} write", "k in {1, 2, 3} write")\
-        .replace("of the two changes", "of the three changes")
+    if "--round7" in sys.argv:
+        extra += ROUND7 + "\n"
+    else:
+        out = out.replace("produce TWO different", "produce THREE different")\
+            .replace("k in {1, 2} write", "k in {1, 2, 3} write")\
+            .replace("of the two changes", "of the three changes")
     marker = "Your task:"
     out = out.replace(marker, extra + marker, 1)
     sys.stdout.write(out)
